@@ -29,6 +29,14 @@ class Driver(ChanDriver):
                  (1, ('get',), [[(1, F('NReturn', 312)), (1, F('NHeader', 1)),
                                  (1, F('NBody', 0, b'x')), (1, F('NGetOk', 1)),
                                  (1, F('NHeader', 1)), (1, F('NBody', 0, b'y'))]])]),
+            # a Return arriving while a get / a declare waits, the reply in a later read
+            (1, [(1, ('publish', True), []),
+                 (1, ('get',), [[(1, F('NReturn', 312)), (1, F('NHeader', 0))], [(1, F('NGetOk', 1))],
+                                [(1, F('NHeader', 1)), (1, F('NBody', 0, b'y'))]]),
+                 (1, ('check',), []), (1, ('check',), [])]),
+            (1, [(1, ('publish', True), []),
+                 (1, ('rpc', 0), [[(1, F('NReturn', 312)), (1, F('NHeader', 0))], [], [(1, F('NDeclareOk', 1))]]),
+                 (1, ('check',), []), (1, ('rpc', 0), [[(1, F('NDeclareOk', 2))]])]),
         ]
 
     def fingerprint(self, case):
